@@ -37,7 +37,7 @@ type C16Scenario struct {
 	Net     verifsimnet.Profile `json:"net"`
 }
 
-var c16Fields = []string{"", "h1", "100", " 99", "7", "x.log", "text", "WARN something", "ERROR|bad", "FATAL", "WARNING", "a|b", "é", "  WARN indented", "\tERROR after a tab", " FATAL", "   ", "x\tWARN", "\x1b[31mred\x1b[0m", "\x1b[", "%s%d", " ", "REMOTE", "100\n", "\t"}
+var c16Fields = []string{"EOF", "End", "Foo", "ERR", "FAT", "WAR", "W", "E", "F", "ERRO", "FATA", "", "h1", "100", " 99", "7", "x.log", "text", "WARN something", "ERROR|bad", "FATAL", "WARNING", "a|b", "é", "  WARN indented", "\tERROR after a tab", " FATAL", "   ", "x\tWARN", "\x1b[31mred\x1b[0m", "\x1b[", "%s%d", " ", "REMOTE", "100\n", "\t"}
 
 // genC16Message generates one server message. An ESC byte that does not start
 // a complete SGR sequence is replaced: "the coloured rendering with its escape
@@ -78,7 +78,7 @@ func genC16MessageRaw(r *Rand) []byte {
 	case 2:
 		if r.Bool(0.3) {
 			// a well-formed record of an empty, blank or separator-only line
-			return []byte(fmt.Sprintf("REMOTE|srv|100|%d|f.log|%s\n", r.Intn(100), PickOf(r, "", "", " ", "\t", "|", "||", "\r")))
+			return []byte(fmt.Sprintf("REMOTE|srv|100|%d|f.log|%s\n", r.Intn(100), PickOf(r, "", "", " ", "\t", "|", "||", "\r", "EOF", "End", "Foo", "E", "F", "W", "ERR", "FATA", "WAR")))
 		}
 		return []byte(fmt.Sprintf("REMOTE|srv|100|%d|f.log|line %d of the file\n", r.Intn(100), r.Intn(100)))
 	case 3:
